@@ -111,7 +111,7 @@ impl CoreDID {
   ///
   /// Returns `Err` if the input is not a valid [`DID`].
   pub fn parse(input: impl AsRef<str>) -> Result<Self, Error> {
-    BaseDIDUrl::parse(input).map(Self).map_err(Error::from)
+    parse_base_did_url(input.as_ref()).and_then(Self::try_from)
   }
 
   /// Set the method name of the [`DID`].
@@ -192,6 +192,7 @@ impl TryFrom<BaseDIDUrl> for CoreDID {
   type Error = Error;
 
   fn try_from(base_did_url: BaseDIDUrl) -> Result<Self, Self::Error> {
+    Self::check_validity(&base_did_url)?;
     Ok(Self(base_did_url))
   }
 }
@@ -263,6 +264,38 @@ impl KeyComparable for CoreDID {
   fn key(&self) -> &Self::Key {
     self
   }
+}
+
+/// Parses `input` with the underlying DID URL parser after ruling out the inputs that parser mishandles.
+pub(crate) fn parse_base_did_url(input: &str) -> Result<BaseDIDUrl, Error> {
+  // The parser trims surrounding control characters and spaces while parsing but keeps the untrimmed
+  // input, so that its component accessors would slice at shifted positions.
+  if input.trim_matches(|ch: char| ch.is_ascii_control() || ch.is_ascii_whitespace()) != input {
+    return Err(Error::InvalidScheme);
+  }
+  // The parser skips the byte that follows a percent-encoded triple; when a triple ends both the
+  // method-specific id and the input, it indexes out of bounds.
+  if method_id_scan_overruns(input) {
+    return Err(Error::InvalidMethodId);
+  }
+  BaseDIDUrl::parse(input).map_err(Error::from)
+}
+
+/// Mirrors the parser's scan of the method-specific id and reports whether it ends beyond the input.
+fn method_id_scan_overruns(input: &str) -> bool {
+  let bytes: &[u8] = input.as_bytes();
+  let Some(colon) = bytes.iter().skip(4).position(|byte| *byte == b':') else {
+    return false;
+  };
+  let mut index: usize = colon + 5;
+  while index < bytes.len() {
+    match bytes[index] {
+      b'/' | b'?' | b'#' => return false,
+      b'%' => index += 4,
+      _ => index += 1,
+    }
+  }
+  index > bytes.len()
 }
 
 /// Checks whether a character satisfies DID method name constraints:
